@@ -251,6 +251,12 @@ def discharge(ob: Oblig, timeout_ms=10000, seed=0, use_cvc5=True):
         return out
     out["verdict"] = "unknown"
     out["reason"] = s.reason_unknown()
+    # case split over the disjunctions introduced by state merging (each case is one original path)
+    sp = _case_split(ob, timeout_ms, seed)
+    if sp is not None:
+        out.update(sp)
+        out["time_s"] = round(time.time() - t0, 4)
+        return out
     if use_cvc5:
         r2 = cvc5_check(s, timeout_ms)
         out["cvc5"] = r2
@@ -258,6 +264,33 @@ def discharge(ob: Oblig, timeout_ms=10000, seed=0, use_cvc5=True):
             out["verdict"] = "unsat"; out["backend"] = "cvc5"
         out["time_s"] = round(time.time() - t0, 4)
     return out
+
+
+def _case_split(ob, timeout_ms, seed, max_cases=24):
+    from .engine import MERGE_ORS
+    ors = [c for c in ob.pc if c.get_id() in MERGE_ORS and z3.is_or(c)]
+    if not ors:
+        return None
+    # split on the latest merges first (they are the ones closest to the obligation)
+    chosen, n = [], 1
+    for c in reversed(ors):
+        k_ = c.num_args()
+        if n * k_ > max_cases:
+            break
+        chosen.append(c); n *= k_
+    if not chosen:
+        return None
+    import itertools
+    all_unsat = True
+    for combo in itertools.product(*[c.children() for c in chosen]):
+        s_, r_ = _check(list(ob.pc) + list(combo), ob.goal, timeout_ms, seed)
+        if r_ == z3.sat:
+            return {"verdict": "sat", "model": extract_model(s_.model(), ob), "stage": "case-split", "backend": "z3"}
+        if r_ != z3.unsat:
+            all_unsat = False
+    if all_unsat:
+        return {"verdict": "unsat", "stage": "case-split", "backend": "z3"}
+    return None
 
 
 def cvc5_check(solver, timeout_ms):
